@@ -1691,6 +1691,19 @@ void tNMEA2000::FindFreeCANMsgIndex(unsigned long PGN, unsigned char Source, uns
   unsigned long OldestMsgTime,CurTime;
   int OldestIndex;
 
+  // Prefer the slot, which already holds this message. A new first frame must supersede the unfinished message
+  // instead of being stored to a free slot below it, which would leave a stale slot behind.
+  for (MsgIndex=0; MsgIndex<MaxN2kCANMsgs; MsgIndex++) {
+    if ( !N2kCANMsgBuf[MsgIndex].FreeMsg
+         && N2kCANMsgBuf[MsgIndex].N2kMsg.PGN==PGN
+         && N2kCANMsgBuf[MsgIndex].N2kMsg.Source==Source
+         && N2kCANMsgBuf[MsgIndex].N2kMsg.Destination==Destination
+#if !defined(N2K_NO_ISO_MULTI_PACKET_SUPPORT)
+         && N2kCANMsgBuf[MsgIndex].N2kMsg.IsTPMessage()==TPMsg
+#endif
+       ) return;
+  }
+
   for (MsgIndex=0, CurTime=OldestMsgTime=N2kMillis(), OldestIndex=MaxN2kCANMsgs;
        MsgIndex<MaxN2kCANMsgs &&
        !( N2kCANMsgBuf[MsgIndex].FreeMsg ||
